@@ -97,6 +97,9 @@ theorem named_union {p o : PortSet} (ho : o.named = []) : (p.union o).named = p.
 
 theorem noNames_addConnection {c : ConnSet} (hc : NoNames c) (pr : Proto) {ps : PortSet}
     (hps : ps.named = []) : NoNames (c.addConnection pr ps) := by
+  cases ha : c.allowAll
+  case true => rw [ConnSet.addConnection_of_allowAll ha]; exact hc
+  rw [ConnSet.addConnection_of_not_allowAll ha]
   apply noNames_checkIfAll
   unfold ConnSet.addConnectionRaw
   split
@@ -187,25 +190,38 @@ theorem tcpOnly_mk : TcpOnly (ConnSet.mk' false) :=
 theorem tcpOnly_add {c : ConnSet} (h : TcpOnly c) {n : Int} (hn : inRange n) :
     TcpOnly (c.addConnection .TCP ((PortSet.mk' false).addPortRange n n)) := by
   refine ⟨?_, ?_, ?_, noNames_addConnection h.noNames .TCP rfl⟩
-  · apply ConnSet.wf_addConnection .TCP h.wf (PortSet.wf_addPortRange (PortSet.wf_mk' false) hn.1 hn.2)
-    intro ha
-    rw [h.allowAll] at ha
-    cases ha
+  · exact ConnSet.wf_addConnection .TCP h.wf
+      (PortSet.wf_addPortRange (PortSet.wf_mk' false) hn.1 hn.2)
   · intro x
-    rw [ConnSet.den_addConnection]
-    rintro (hx | ⟨hx, _⟩)
+    rw [ConnSet.den_addConnection_exact]
+    rintro (hx | ⟨_, hx, _⟩)
     · exact h.noUDP x hx
     · cases hx
   · intro x
-    rw [ConnSet.den_addConnection]
-    rintro (hx | ⟨hx, _⟩)
+    rw [ConnSet.den_addConnection_exact]
+    rintro (hx | ⟨_, hx, _⟩)
     · exact h.noSCTP x hx
     · cases hx
 
-theorem den_add (c : ConnSet) (n x : Int) :
+/-- `hn`: on the AllowAll form nothing is added -/
+theorem den_add (c : ConnSet) {n : Int} (hn : inRange n) (x : Int) :
     (c.addConnection .TCP ((PortSet.mk' false).addPortRange n n)).den .TCP x ↔
       c.den .TCP x ∨ x = n := by
-  rw [ConnSet.den_addConnection, mem_single]
+  rw [ConnSet.den_addConnection _ _ (PortSet.wf_addPortRange (PortSet.wf_mk' false) hn.1 hn.2),
+    mem_single]
+  simp
+
+/-- the same for a receiver that is not the AllowAll form, whatever `n` -/
+theorem den_add_of_not_allowAll {c : ConnSet} (hc : c.allowAll = false) (n x : Int) :
+    (c.addConnection .TCP ((PortSet.mk' false).addPortRange n n)).den .TCP x ↔
+      c.den .TCP x ∨ x = n := by
+  rw [ConnSet.den_addConnection_exact, mem_single]
+  simp [hc]
+
+/-- adding a TCP entry leaves UDP as it is -/
+theorem den_add_udp (c : ConnSet) (ps : PortSet) (x : Int) :
+    (c.addConnection .TCP ps).den .UDP x ↔ c.den .UDP x := by
+  rw [ConnSet.den_addConnection_exact]
   simp
 
 /-! ### G. `podExposedTCP` -/
@@ -223,16 +239,27 @@ def exposeStep (res : ConnSet) (c : CPort) : ConnSet :=
 theorem podExposedTCP_eq (p : Pod) : podExposedTCP p = p.ports.foldl exposeStep (ConnSet.mk' false) :=
   rfl
 
-theorem den_foldl_expose (ports : List CPort) (acc : ConnSet) (x : Int) :
+/-- `hacc`: the accumulator holds no UDP port, so it never is the AllowAll form (on which
+`AddConnection` adds nothing); no validity hypothesis on the container ports is needed -/
+theorem den_foldl_expose (ports : List CPort) (acc : ConnSet) (hacc : ∀ y, ¬ acc.den .UDP y)
+    (x : Int) :
     (ports.foldl exposeStep acc).den .TCP x ↔
       acc.den .TCP x ∨ ∃ c ∈ ports, c.proto = .TCP ∧ c.port = x := by
   induction ports generalizing acc with
   | nil => simp
   | cons c cs ih =>
-    rw [List.foldl_cons, ih]
+    have hstep : ∀ y, ¬ (exposeStep acc c).den .UDP y := by
+      intro y
+      unfold exposeStep
+      split
+      · rw [den_add_udp]; exact hacc y
+      · exact hacc y
+    rw [List.foldl_cons, ih _ hstep]
     unfold exposeStep
     by_cases hc : c.proto = .TCP
-    · simp only [hc, beq_self_eq_true, if_true, den_add, List.mem_cons, exists_eq_or_imp, true_and]
+    · simp only [hc, beq_self_eq_true, if_true,
+        den_add_of_not_allowAll (allowAll_false_of_no_udp hacc), List.mem_cons, exists_eq_or_imp,
+        true_and]
       constructor
       · rintro ((h | h) | h)
         · exact Or.inl h
@@ -259,7 +286,7 @@ theorem tcpOnly_foldl_expose (ports : List CPort) (acc : ConnSet) (hacc : TcpOnl
 
 theorem podExposedTCP_den (p : Pod) (x : Int) :
     (podExposedTCP p).den .TCP x ↔ ∃ c ∈ p.ports, c.proto = .TCP ∧ c.port = x := by
-  rw [podExposedTCP_eq, den_foldl_expose]
+  rw [podExposedTCP_eq, den_foldl_expose _ _ (ConnSet.den_mk_none _)]
   simp [ConnSet.den_mk_none]
 
 theorem podExposedTCP_tcpOnly {p : Pod} (hp : ValidPod p) : TcpOnly (podExposedTCP p) :=
@@ -333,7 +360,7 @@ theorem den_peerStep {p : Pod} (hp : ValidPod p) (res : ConnSet) (ap : IOS) (x :
     · rename_i hc
       rw [contains_exposed hp] at hc
       show (res.addConnection .TCP ((PortSet.mk' false).addPortRange n n)).den .TCP x ↔ _
-      rw [den_add]
+      rw [den_add _ (exposed_inRange hp hc)]
       constructor
       · rintro (h1 | rfl)
         · exact Or.inl h1
